@@ -15,6 +15,8 @@ package drv
 //	               as an implementation's make() does); the caller holds a proxy obtained from the
 //	               reference through its session
 //	other-service  hosted by the service of the object's own interface (when that is another service)
+//	service-returned-by-a-call   hosted by the called service and obtained by the caller as the result of
+//	               a generated `make() -> T` of the called interface (when the package has one)
 //
 // Every created object answers value() with a number of its own, so that "the
 // call reached this object's implementation" is observable on both sides.
@@ -292,7 +294,15 @@ func (c *objCtx) view(it *Interface, inst *objInst, sess bus.Session) (interface
 	return v, nil
 }
 
+// clientServices: one client-side service reference per called service for the
+// whole process (every ProxyService() numbers its objects from 2^31 again: two
+// of them on one connection would hand out the same identifiers).
+var clientServices = map[string]bus.Service{}
+
 func (c *objCtx) clientService() (svc bus.Service, err error) {
+	if c.clientS == nil {
+		c.clientS = clientServices[c.r.itf.Name]
+	}
 	if c.clientS != nil {
 		return c.clientS, nil
 	}
@@ -306,6 +316,7 @@ func (c *objCtx) clientService() (svc bus.Service, err error) {
 		return nil, fmt.Errorf("the proxy of %s has no Proxy()", c.r.itf.Name)
 	}
 	c.clientS = op.Proxy().ProxyService(c.r.session)
+	clientServices[c.r.itf.Name] = c.clientS
 	return c.clientS, nil
 }
 
@@ -372,9 +383,51 @@ func (c *objCtx) vals(t reflect.Type, pos int) []reflect.Value {
 		if okOther {
 			add(onService("other-service", other, true))
 		}
+		if okAct {
+			// a service-hosted object obtained the way a caller obtains one: returned
+			// by a parameterless method of the called interface (when it has one)
+			if x := c.obtainByCall(it, t, act, label); x != nil {
+				add(x, nil)
+			}
+		}
 	}
 	c.cache[key] = out
 	return out
+}
+
+// obtainByCall calls a generated proxy method `make() -> T` of the interface
+// under test, whose implementation creates the object on its service; nil when
+// there is no such method or it fails (its own unit reports that).
+func (c *objCtx) obtainByCall(it *Interface, t reflect.Type, act bus.Activation, label string) interface{} {
+	pt := c.r.proxy.Type()
+	for i := 0; i < pt.NumMethod(); i++ {
+		mt := pt.Method(i).Type
+		if mt.NumIn() != 1 || mt.NumOut() != 2 || mt.Out(0) != t || pt.Method(i).Name == "WithContext" {
+			continue
+		}
+		var inst *objInst
+		c.r.h.reset(nil)
+		c.r.h.mu.Lock()
+		c.r.h.retMake = func([]interface{}) (reflect.Value, error) {
+			x, err := c.create(it, "service-returned-by-a-call", act.Session, act.Service, label)
+			if err != nil {
+				return reflect.Value{}, err
+			}
+			inst = x
+			return reflect.ValueOf(x.direct), nil
+		}
+		c.r.h.mu.Unlock()
+		out, pmsg, to := callT(c.r.proxy.Method(i), nil)
+		if to || pmsg != "" || errOf(out) != nil || inst == nil || out[0].IsNil() {
+			return nil
+		}
+		x := out[0].Interface()
+		instMu.Lock()
+		instOf[x] = inst
+		instMu.Unlock()
+		return x
+	}
+	return nil
 }
 
 func (h *Handler) activation(itf string) (bus.Activation, bool) {
@@ -603,6 +656,10 @@ func (r *runner) objectMethod(a Action, m reflect.Value, in []reflect.Type) {
 		rets = Vals(mt.Out(0))
 	}
 	act, okAct := r.h.activation(r.itf.Name)
+	// every preset return value at least once (a container of objects as result)
+	for len(rets) > len(tps)*len(plans) {
+		tps = append(tps, tps[0])
+	}
 	k := -1
 	for _, args := range tps {
 		for _, plan := range plans {
@@ -753,7 +810,9 @@ func (r *runner) objectMethod(a Action, m reflect.Value, in []reflect.Type) {
 			switch {
 			case retIt != nil:
 				r.res.Checks++
-				r.count("result/" + plan.name)
+				if plan.arg < 0 {
+					r.count("result/" + plan.name)
+				}
 				exp := made
 				if plan.arg >= 0 {
 					if es, _ := expectedObjects(args[plan.arg : plan.arg+1]); len(es) == 1 {
